@@ -97,7 +97,7 @@ pub fn run(args: &Args, rec: &mut Recorder) {
     rec.rule = "evaluation = one check() call under the crash and purity monitors: (a) totality on syntactically valid but semantically arbitrary documents and structurally odd modules, (b) a fully consistent generated module must yield an empty report, (c) each single corrupted covered reference of such a module must yield a CrossReferenceError naming the bogus target. distinct_nontrivial = distinct module texts by content hash".into();
     rec.assumptions.push("'covered' references are the sites check() examines at the pinned commit (frozen table, column C of DESIGN.md appendix A)".into());
     let g = Grammar::load_default();
-    let total: u64 = if args.thorough { 150_000 } else { 8_000 };
+    let total: u64 = if args.thorough { 150_000 } else { 25_000 };
     run_cases(args, rec, total, crate::util::reset_budget, |rng, case, rec| {
         match case % 4 {
             0 => {
